@@ -59,7 +59,8 @@ VARIABLES
   wdone,    \* writes completed
   open,     \* reader -> [from, op, k, h, mv, arg]     calls in flight
   cits,     \* cursors used by concurrent readers  h -> [lo, hi, pos, since, anchor, exact, rel]
-  res       \* reply of the last call
+  res       \* reply of the last sequential call, or of the writer's call in flight (readers' replies are
+            \* parameters of RRespond and leave it alone)
 
 acct   == <<map, kl, vl, n, size, used>>
 conc   == <<hist, wbeg, wdone, open, cits>>
@@ -227,16 +228,14 @@ NewCIter(h, lo, hi) ==
   /\ h \notin Dom(cits) /\ lo \in 0 .. NK /\ hi \in 0 .. NK
   /\ cits' = Ext(cits, h, [lo |-> lo, hi |-> hi, pos |-> SOI, since |-> wdone, anchor |-> wdone,
                            exact |-> TRUE, rel |-> FALSE])
-  /\ res' = <<"none">>
-  /\ UNCHANGED <<acct, cap, its, hist, wbeg, wdone, open>>
+  /\ UNCHANGED <<acct, cap, its, hist, wbeg, wdone, open, res>>
 
 CIterRelease(h) ==
   /\ h \in Dom(cits)
   /\ \A r \in Dom(open) : ~(open[r].op = "iter" /\ open[r].h = h)
   /\ cits' = [cits EXCEPT ![h].rel = TRUE]
   /\ hist' = Keep(hist, Needed(open, cits', wdone))
-  /\ res' = <<"none">>
-  /\ UNCHANGED <<acct, cap, its, wbeg, wdone, open>>
+  /\ UNCHANGED <<acct, cap, its, wbeg, wdone, open, res>>
 
 \* call: [op |-> "get" | "find" | "has" | "iter", k, h, mv, arg]
 RInvoke(r, call) ==
@@ -296,7 +295,6 @@ RRespond(r, rep) ==
                                                      !.since = o.from, !.exact = ex,
                                                      !.anchor = IF ex THEN o.from ELSE c.anchor]]
      /\ hist' = Keep(hist, Needed(open', cits', wdone))
-     /\ res' = rep
-  /\ UNCHANGED <<acct, cap, its, wbeg, wdone>>
+  /\ UNCHANGED <<acct, cap, its, wbeg, wdone, res>>
 
 =============================================================================
